@@ -113,6 +113,55 @@ func C05(c *hx.Ctx) {
 		}
 		targets = append(targets, t)
 	}
+	if c.Thorough() {
+		// the whole frozen xz-utils corpus, the streams whose chunks sit on the size limits and
+		// streams several times longer than the 4 KiB reader window (payload cuts sampled)
+		have := map[string]bool{}
+		for _, t := range targets {
+			have[t.name] = true
+		}
+		sampled := func(regs []ref.Region, kind string, every int) func(int) bool {
+			return func(cut int) bool {
+				for _, r := range regs {
+					if r.Kind == kind && cut > r.Off+8 && cut < r.End-8 {
+						return cut%every == 0
+					}
+				}
+				return true
+			}
+		}
+		if corp, err := LoadCorpus(".xz"); err == nil {
+			for _, f := range corp {
+				if have["xzutils-"+f.Name] || len(f.Stream) > 200000 {
+					continue
+				}
+				xr := ref.DecodeXZ(f.Stream, ref.XZOpts{})
+				if xr.Err != nil {
+					continue
+				}
+				regs := xr.Regions()
+				targets = append(targets, target{"xzutils-" + f.Name, "xz", f.Stream, f.Plain, regs, "start", sampled(regs, "DATA", 61)})
+			}
+		}
+		if lim, err := sizeLimitStreams(c.Seed); err == nil {
+			for _, b := range lim {
+				regs := l2Regions(b.Data)
+				every := 1 + len(b.Data)/700
+				targets = append(targets, target{b.Name, "lzma2-big", b.Data, b.Plain, regs, "l2", func(cut int) bool { return cut < 16 || cut%every == 0 || cut > len(b.Data)-16 }})
+			}
+		}
+		for mi, cfg := range []lzma.WriterConfig{{DictCap: 4096}, {DictCap: 4096, SizeInHeader: true, Size: 15000}, {DictCap: 4096, SizeInHeader: true, Size: 15000, EOSMarker: true}} {
+			plain := MakeData("alternating", 15000, c.Seed+int64(mi)+70)
+			var buf bytes.Buffer
+			if w, err := cfg.NewWriter(&buf); err == nil {
+				w.Write(plain)
+				w.Close()
+				d := buf.Bytes()
+				regs := []ref.Region{{Kind: "AHDR", Off: 0, End: 13}, {Kind: "ADATA", Off: 13, End: len(d)}, {Kind: "AEND", Off: len(d), End: len(d)}}
+				targets = append(targets, target{fmt.Sprintf("alone-15k-window4k-mode%d", mi), "alone", d, plain, regs, "alone", all})
+			}
+		}
+	}
 	// multi-stream files with paddings
 	find := func(n string) Base {
 		for _, b := range bases {
@@ -166,6 +215,8 @@ func C05(c *hx.Ctx) {
 		switch t.format {
 		case "xz":
 			out, err, p = readXZ(prefix, 4096, false, 300)
+		case "lzma2-big":
+			out, err, p = readL2(prefix, 1<<22)
 		case "lzma2":
 			out, err, p = readL2(prefix, 4096)
 		case "alone":
